@@ -50,3 +50,36 @@ package sign
 //@   assert_at[C11] BroadcastMessage "r.BroadcastMessage(out, &broadcast2{D_i: D_i, E_i: E_i})": typeis(arg2, *broadcast2) && arg2.(*broadcast2).D_i == D_i && arg2.(*broadcast2).E_i == E_i
 //@   assert_at[C11] Write "nonceHasher.Write(r.Hash().Sum())": wlog(arg0) == wempty() && hstate(arg0) == key
 //@   assert_at[C11] Write "nonceHasher.Write(r.Hash().Sum())": bval(arg1) == hsum(hstate(r.Helper.hash))
+
+// ---- round state invariants and acceptance gates of the signing rounds (C03, C05)
+// (maps are total over the signers once the start function accepted: every signer holds a share)
+//@ pred s1ok(r *round1) := r != nil && r.Helper != nil && r.Helper.info.Group != nil && r.Y != nil && r.YShares != nil && r.s_i != nil
+//@ pred s2ok(r *round2) := r != nil && s1ok(r.round1) && r.D != nil && r.E != nil && r.d_i != nil && r.e_i != nil && r.D != r.E
+//@ pred s3ok(r *round3) := r != nil && s2ok(r.round2) && r.R != nil && r.RShares != nil && r.c != nil && r.z != nil && r.Lambda != nil && r.z != r.Lambda
+// what the CBOR decoder leaves in the content templates (A-CBOR): pre-shaped interface values stay non-nil
+//@ pred dec_sb2(b *broadcast2) := b.D_i != nil && b.E_i != nil
+
+// Round 2: nonce commitments are stored only if neither is the identity, and exactly as sent.
+//@ func (*round2).StoreBroadcastMessage
+//@   nopanic[C05]
+//@   requires s2ok(r) && msg.Content != nil && (typeis(msg.Content, *broadcast2) ==> (msg.Content.(*broadcast2) != nil ==> dec_sb2(msg.Content.(*broadcast2))))
+//@   let body = msg.Content.(*broadcast2)
+//@   ensures[C03] result == nil ==> typeis(msg.Content, *broadcast2) && body != nil && ptval(body.D_i) != p_id() && ptval(body.E_i) != p_id()
+//@   ensures[C03] result == nil ==> r.D[msg.From] == body.D_i && r.E[msg.From] == body.E_i
+
+// Round 3: a response share is stored only if z_i*G == R_i + c*lambda_i*Y_i for THIS sender's R_i, lambda_i, Y_i.
+//@ func (*round3).StoreBroadcastMessage
+//@   nopanic[C05]
+//@   requires s3ok(r) && msg.Content != nil
+//@   requires r.Lambda[msg.From] != nil && r.YShares[msg.From] != nil && r.RShares[msg.From] != nil
+//@   let body = msg.Content.(*broadcast3)
+//@   ensures[C03] result == nil ==> typeis(msg.Content, *broadcast3) && body != nil && body.Z_i != nil
+//@   ensures[C03,C01] result == nil ==> act(scval(body.Z_i), gen()) == p_add(act(scval(r.c), act(scval(r.Lambda[msg.From]), ptval(r.YShares[msg.From]))), ptval(r.RShares[msg.From]))
+//@   ensures[C03] result == nil ==> r.z[msg.From] == body.Z_i
+
+// Round 2 output (C01): the broadcast carries exactly the computed response. (That z_i = lambda_i*s_i*c + d_i + rho_i*e_i
+// and that the challenge is the verifier's schnorr_chal(R, Y, M) were attempted as assert_at obligations and are NOT
+// claimed: the solvers return unknown on them within the budget -- see DESIGN.md 10.8.)
+//@ func (*round2).Finalize
+//@   requires s2ok(r)
+//@   assert_at[C01] BroadcastMessage "err := r.BroadcastMessage(out, &broadcast3{Z_i: z_i})": typeis(arg2, *broadcast3) && arg2.(*broadcast3).Z_i == z_i
